@@ -1,10 +1,11 @@
 """C04 Invalid input raises LoadError and nothing else."""
 from vf.gen import Plan
 from props.fam_l1 import l1_loader_module
+from props.fam_l2 import l2_module
 
 
 def build(tier, seed):
-    mods = [l1_loader_module("C04", tier)]
+    mods = [l1_loader_module("C04", tier), l2_module("C04", tier)]
     return Plan("C04", mods,
                 assumptions=["CrossHair models of builtins (floats as reals: numeric boundary regions are owned by the E2 kernels)"],
                 bounds={}, outside=["strings longer than the bound"])
